@@ -40,7 +40,10 @@ add("C04", "TLC checks the transcription of two_val_model_counts_logic (CountSea
 add("C05", "NgSearch.tla models nogood_internal with a nondeterministic heuristic (= every contract-abiding custom heuristic): TLC proves "
     "exactness, stack synchrony, a step bound and (under fairness) termination for all two-statement ADFs (thorough: 512 three-statement ADFs). "
     "On the code side every built-in heuristic, Rand under several seeds, scripted custom heuristics and the channel variants are run, and the REAL "
-    "choice tree of the search is enumerated path by path for all ADFs with <= 2 and a quarter of those with 3 statements; TLC judges every answer.",
+    "choice tree of the search is enumerated path by path for all ADFs with <= 2 and a quarter of those with 3 statements; TLC judges every answer. "
+    "Channel variants also run on bounded (rendezvous / capacity 1) channels with a late, slow consumer. Step-level conformance: with the search tracer "
+    "(hook H3) the loop-carried state of every iteration of the real loop is recorded and Trace_NgSearch requires each to be reached by one NgSearch!Iterate "
+    "step with the logged pick (2 736 traced runs, drift only).",
     SEM_NOTE + " Termination on the code side is a 20 s wall-clock budget per call plus a heuristic-call budget of 4*3^n+16.",
     "TLA+ state machine of the learning loop model-checked (safety + liveness); exhaustive choice-tree replay on the real code; TLC trace validation", "6/C05")
 
@@ -68,7 +71,10 @@ add("C13", "Definitional counterparts (explicit path enumeration, |Den|, depende
 add("C11", "Call histories on one Adf object: every answer after a history is judged by TLC against the definition recomputed from the ASTs and "
     "against the answer of a fresh object; the whole history is run twice and must agree element by element (handles, order); adf.ac must be "
     "unchanged; after the history the real memo tables (H1) are audited entry by entry against the real node table. Model side: StepOK + CachesOK "
-    "on every transition of the closed two-variable store graph (results independent of memo contents).", BDD_NOTE,
+    "on every transition of the closed two-variable store graph (results independent of memo contents), and AdfRobdd.tla: the API-session machine in which "
+    "grounded / complete / stable are transcribed ON the store model (AdfRobddOps, predicting raw handles) - any sequence of calls and extra formulas on one "
+    "object for all 256 two-statement ADFs yields the definitional answers and keeps the store invariants. Trace_Bdd steps the same operators along recorded "
+    "histories from the real pre-state and compares every raw answer and the final node table (drift only).", BDD_NOTE,
     "TLC trace validation of call histories (after-history vs definition vs fresh vs repeated run) + memo-table audit; store model checked exhaustively", "6/C11")
 add("C14", "Persist.tla runs an original store and an imported / rebuilt copy in lock-step through every operation history over two variables "
     "(4072 states, 2.5 M transitions): identical tables, identical results, regenerated dependency lists and counts exact. On the code side a serde "
@@ -154,7 +160,9 @@ add("C16", "Server.tla models handlers and background tasks with one action per 
     "'unexplained'); --selftest shows the shipped continuation leaves a panicked task running forever and the strict invariant finds the stale write. The "
     "unmodified server binary runs against the wire stub; for every problem shown or stored TLC parses the stored code with its own recogniser, recomputes the "
     "definitional answers and compares models and graphs (GraphOK: reachable node set, root labels, lo/hi walk = acceptance condition under the shown model), "
-    "for both parsings and all six strategies; unparseable and panicking code must end as Error, solving it be refused, and no ended task be reported running.",
+    "for both parsings and all six strategies; unparseable and panicking code must end as Error, solving it be refused, no ended task be reported running, and "
+    "a task be shown as running only to the person who started it for that problem (slow-task scenario with two users owning same-named problems). Footprint "
+    "conformance: each request's database commands are compared with ServerShapes!HandlerCommands (commands, collections, filter keys; drift only).",
     SERVER_NOTE, "TLA+ model of the service at database-command granularity model-checked with cause-classified invariants; TLC trace validation of real "
     "HTTP/database observations against definitional semantics; race replay through a scheduling database stub", "6/C16")
 add("C17", "Same model with ghost ownership (accounts and documents remember the person who created them): within the bound every foreign read or effect is "
